@@ -432,6 +432,10 @@ func parsePossibilityStageSet(input *input, possi *Possibility) error {
 			return errors.New("Oh no. Reached EOF before StageSet finished")
 		case '>':
 			input.Next()
+			if len(stageSet.Stages) == 0 {
+				/* "<>" restricts nothing and has no rendering */
+				return nil
+			}
 			possi.StageSets = append(possi.StageSets, stageSet)
 			return nil
 		}
